@@ -135,6 +135,8 @@ struct World {
     seq: u64,
     idle: HashMap<u32, u64>,
     finished: HashSet<u32>,
+    /// tracers dropped while their thread was unwinding: the session thread died of a panic nobody caught
+    died: HashSet<u32>,
     latched: HashSet<u32>,
     globals: HashMap<u32, GlobalDataArc>,
     gates: HashMap<i64, Gate>,
@@ -217,6 +219,7 @@ pub fn begin_case() -> u64 {
     w.seq = 0;
     w.idle.clear();
     w.finished.clear();
+    w.died.clear();
     w.latched.clear();
     w.globals.clear();
     w.gates.clear();
@@ -263,6 +266,21 @@ pub struct RecTracer {
     latch: bool,
     /// record all method enter/exit (else only the interesting ones)
     all_methods: bool,
+}
+
+impl Drop for RecTracer {
+    fn drop(&mut self) {
+        // The tracer is owned by the Fsm on the session thread: it is dropped during unwinding only when a panic
+        // leaves `interpret` uncaught (a panic the platform catches itself never gets here).
+        if std::thread::panicking() {
+            let mut w = lock();
+            if w.epoch == self.epoch {
+                w.died.insert(self.id);
+            }
+            drop(w);
+            shared().cv.notify_all();
+        }
+    }
 }
 
 impl fmt::Debug for RecTracer {
@@ -662,18 +680,24 @@ pub fn wait_idle(tracer: u32, n: u64, timeout: Duration) -> Wait {
         if *w.idle.get(&tracer).unwrap_or(&0) >= n {
             return Wait::Idle;
         }
-        if w.overflow {
+        if w.overflow || session_died(&w, tracer) {
             return Wait::Timeout;
         }
         let now = Instant::now();
         if now >= deadline {
             return Wait::Timeout;
         }
-        w = match shared().cv.wait_timeout(w, deadline - now) {
+        w = match shared().cv.wait_timeout(w, (deadline - now).min(Duration::from_millis(100))) {
             Ok((g, _)) => g,
             Err(p) => p.into_inner().0,
         };
     }
+}
+
+/// the session's thread has panicked: nothing it is waited for will happen (the caller sees a watchdog result at
+/// once and finds the panic on record)
+fn session_died(w: &World, tracer: u32) -> bool {
+    w.died.contains(&tracer)
 }
 
 pub fn wait_finished(tracer: u32, timeout: Duration) -> bool {
@@ -683,14 +707,14 @@ pub fn wait_finished(tracer: u32, timeout: Duration) -> bool {
         if w.finished.contains(&tracer) {
             return true;
         }
-        if w.overflow {
+        if w.overflow || session_died(&w, tracer) {
             return false;
         }
         let now = Instant::now();
         if now >= deadline {
             return false;
         }
-        w = match shared().cv.wait_timeout(w, deadline - now) {
+        w = match shared().cv.wait_timeout(w, (deadline - now).min(Duration::from_millis(100))) {
             Ok((g, _)) => g,
             Err(p) => p.into_inner().0,
         };
@@ -745,14 +769,14 @@ pub fn wait_quiescent(tracer: u32, sent: u64, timeout: Duration) -> Wait {
         if i == x + 1 && x == sent + w.selfsends {
             return Wait::Idle;
         }
-        if w.overflow {
+        if w.overflow || session_died(&w, tracer) {
             return Wait::Timeout;
         }
         let now = Instant::now();
         if now >= deadline {
             return Wait::Timeout;
         }
-        w = match shared().cv.wait_timeout(w, deadline - now) {
+        w = match shared().cv.wait_timeout(w, (deadline - now).min(Duration::from_millis(100))) {
             Ok((g, _)) => g,
             Err(p) => p.into_inner().0,
         };
@@ -770,7 +794,7 @@ pub fn wait_idle_stable(tracer: u32, min_consumed: u64, stable: Duration, timeou
             if w.finished.contains(&tracer) {
                 return Wait::Finished;
             }
-            if w.overflow {
+            if w.overflow || session_died(&w, tracer) {
                 return Wait::Timeout;
             }
         }
